@@ -1,8 +1,11 @@
 """C07 — optional, variant and expected track the same state and value as the std types (DESIGN §4 C07)."""
+import concurrent.futures as cf
 import itertools
 import os
 import random
+import re
 import subprocess
+import sys
 import tempfile
 
 import lib
@@ -40,14 +43,74 @@ PROBES = {
     "C07_HAS_OPTREF_CONV": "etl::optional<int&> a; etl::optional<int const&> c(a); (void)c;",
 }
 PROBE_RESULT = {k: _probe(v) for k, v in PROBES.items()}
-# std::expected needs C++23; 9 variant + 4 optional + 4 expected configurations: -O0 keeps the build at ~1 min
-HARNESS_FLAGS = ["-std=c++23", "-O0"] + ["-D%s=%d" % kv for kv in sorted(PROBE_RESULT.items())]
+# std::expected needs C++23; 15 variant + 9 optional + 7 expected configurations at -O0, compiled as NPARTS object files in
+# parallel (harness/c07.cpp: -DC07_PART=k) by run() below; check.py then compiles main() and links them.
+BASE_FLAGS = ["-std=c++23", "-O0"] + ["-D%s=%d" % kv for kv in sorted(PROBE_RESULT.items())]
+HARNESS_FLAGS = list(BASE_FLAGS)
+NPARTS = 8
+
+
+def _build_parts():
+    """compile the configuration groups of the harness in parallel; returns the object files.
+    An object file is reused when the preprocessed translation unit (every header of the tree under test expanded), the
+    flags and the compiler are byte-identical to those it was compiled from: any change of the library gives a new key."""
+    import hashlib
+    os.makedirs(lib.BUILD, exist_ok=True)
+    cache = os.path.join(lib.BUILD, "c07_objcache")
+    os.makedirs(cache, exist_ok=True)
+    flags = [f for f in lib.CXXFLAGS if f != "-g"] + BASE_FLAGS
+    cxxv = lib.sh([lib.CXX, "--version"])[1]
+
+    def one(k):
+        base = [lib.CXX] + flags + ["-DC07_PART=%d" % k, "-I", os.path.join(lib.REPO, "include"), "-I", os.path.join(lib.VERIF, "harness")]
+        src = os.path.join(lib.VERIF, HARNESS)
+        rc, o, e = lib.sh(base + ["-E", src], timeout=600)
+        if rc != 0:
+            return None, rc, o[-200:] + e
+        key = hashlib.sha256((cxxv + "\0" + " ".join(flags) + "\0" + o).encode()).hexdigest()[:32]
+        out = os.path.join(cache, "part%d_%s.o" % (k, key))
+        if os.path.exists(out):
+            os.utime(out)
+            return out, 0, "cached"
+        tmp = out + ".%d.tmp" % os.getpid()
+        rc, o, e = lib.sh(base + ["-c", src, "-o", tmp], timeout=1200)
+        if rc == 0:
+            os.replace(tmp, out)
+        return out, rc, o + e
+
+    with cf.ThreadPoolExecutor(max_workers=NPARTS) as ex:
+        res = list(ex.map(one, range(NPARTS)))
+    bad = [r for r in res if r[1] != 0]
+    if bad:
+        raise lib.MachineryError("harness does not compile against %s:\n%s" % (lib.REPO, bad[0][2][-1500:]))
+    olds = sorted((os.path.join(cache, f) for f in os.listdir(cache)), key=os.path.getmtime)
+    for f in olds[:-12 * NPARTS]:
+        os.unlink(f)
+    return [r[0] for r in res]
+
+
+def run(ctx, replay=None):
+    """standard flow of check.py, with the harness configurations pre-compiled in parallel"""
+    global HARNESS_FLAGS
+    objs = _build_parts()
+    HARNESS_FLAGS = BASE_FLAGS + ["-DC07_PART=-1"] + objs
+    import check
+    return check.standard(sys.modules[__name__], ctx, replay)
+
 
 RULE = ("A case is a history: `new kind=var|opt|oref|exp alts=.. n=N` creates N objects of one configuration (etl and std side by side), "
         "each following line is one operation on them; after every line the result and the (index, value) of every object are compared. "
         "Configurations: variant over {int,float}, {float,int}, {int,Trk}, {Trk,int}, {Trk,int,float}, {int,float,Trk}, {Trk,Mo}, "
-        "{int,float,Trk,Mo}, {float,Mo}; optional<int|float|Trk|Mo> with a partner optional<long|int>; optional<int&>; "
-        "expected<int,Trk>, <Trk,int>, <int,float>, <Trk,Mo> (Trk: non-trivial copy/move/destructor, Mo: move-only; float incl. NaN). "
+        "{int,float,Trk,Mo}, {float,Mo}, {int,C}, {int,D}, {int,A}, {int,B}, {Q,X}, {C,B}; optional<int|float|Trk|Mo|C|D|A|B|X> with a "
+        "partner optional<long|int>; optional<int&>; expected<int,Trk>, <Trk,int>, <int,float>, <Trk,Mo>, <int,C>, <Q,X>, <D,B> "
+        "(Trk: non-trivial copy/move/destructor, Mo: move-only; float incl. NaN; C, D, A, B: exactly one user-provided special member "
+        "- copy ctor, move ctor, copy assignment, move assignment - the other three defaulted and trivial; Q, X: all four "
+        "user-provided, X with a potentially-throwing copy ctor; each user-provided member leaves its own mark in the value, a "
+        "defaulted one copies the source's mark, so the stored value shows which special member produced it). "
+        "Value categories: `vcat` visits one or two variants as lvalue / const lvalue / rvalue / const rvalue (all 4 and all 16 "
+        "combinations) with a visitor that reports the reference kind of each argument and with a by-value visitor (moved-from "
+        "sources show in the state), plus the decltype matrix of visit, unchecked_get/std::get and operator[]; `ocat` / `ecat` do the "
+        "same for operator*, error(), and_then and or_else of optional and expected. "
         "Exhaustive part: every (from-state, to-state) pair over 2 values per alternative x {copy/move assignment, copy/move construction, "
         "generic swap, member swap, self forms, six relational operators, visit, visit_with_index}; every converting "
         "constructor/assignment argument type {int,short,long,float,Trk,Mo} x every state; optional: every pair x mixed "
@@ -59,9 +122,14 @@ RULE = ("A case is a history: `new kind=var|opt|oref|exp alts=.. n=N` creates N 
 ASSUMPTIONS = ["std::variant / std::optional / std::expected of libstdc++ 12 (-std=c++23) are the reference for spec validation (R2); "
                "std::expected::and_then/or_else (absent from libstdc++ 12) and optional<T&> (C++26) are referenced by their "
                "definition in the working draft / P2988, written out in the harness",
-               "element types: self move assignment is a no-op, a moved-from element holds a fixed marker value, != is the negation "
-               "of == and == is symmetric (hypotheses `hne`, `hsym` of the relational theorems; true for int, float incl. NaN, Trk, Mo)",
-               "a trivially copyable alternative is left unchanged by a move (hypothesis `htriv` of the history theorems)",
+               "element types: self copy / move assignment is a no-op, != is the negation of == and == is symmetric (hypotheses `hne`, "
+               "`hsym` of the relational theorems; true for int, float incl. NaN, Trk, Mo and the Sm kinds)",
+               "the four special members of the element types are arbitrary functions on values (structure `Elem`: no laws); the "
+               "variant's trait bits are sound for them (hypothesis `TrivOK`: a special member of the variant is the defaulted bitwise "
+               "one only when every alternative's corresponding members are the plain copy - what is_trivially_* means)",
+               "no alternative has a potentially-throwing copy constructor together with a non-throwing move constructor (hypothesis "
+               "`hfb` of assign_refines / step_refines / run_refines / expected_refines); the excluded class is known finding "
+               "F-C07-copy-assign-no-copy-then-move (kind x), theorem assign_fallback_counterexample",
                "histories only name existing objects and alternative indices (Spec.valid); operator* / error() are only applied where "
                "their precondition holds; float -> integer conversions are not driven with NaN"]
 TRUSTED = ["hand model Tetl/C07/Model.lean tied to the source by the correspondence run (R1) on every run",
@@ -72,25 +140,30 @@ TRUSTED = ["hand model Tetl/C07/Model.lean tied to the source by the corresponde
            "of the harness flags and of the evidence"]
 T = "Tetl.C07.Props."
 THEOREMS = {
+    "vcat": [], "ocat": [], "ecat": [],
     "visit": [T + "visit_dispatch", T + "visit1_active", T + "visit2_active"],
     "emplace": [T + "step_refines", T + "run_refines", T + "optional_refines", T + "expected_refines"],
-    "assign": [T + "assign_refines", T + "assignSelf_refines", T + "step_refines", T + "run_refines"],
+    "assign": [T + "assign_refines", T + "assign_fallback_counterexample", T + "assignSelf_refines", T + "step_refines", T + "run_refines",
+               T + "optional_refines", T + "expected_refines"],
     "ctor": [T + "construct_refines", T + "step_refines", T + "run_refines"],
     "swap": [T + "swap2_refines", T + "swapSelf_refines", T + "step_refines", T + "run_refines"],
     "rel": [T + "varRel_eq", T + "optRel_eq"], "relm": [T + "optRel_eq"],
     "reln": [T + "optRelNullR_eq", T + "optRelNullL_eq"], "relv": [T + "optRelValR_eq", T + "optRelValL_eq"],
-    "conv": [T + "step_refines", T + "assign_refines"],
-    "get_if": [T + "getIf_eq"], "value_or": [T + "valueOr_eq"], "and_then": [T + "andThen_eq"],
+    "conv": [T + "step_refines", T + "assign_refines", T + "select_eq"],
+    "get_if": [T + "getIf_eq"], "value_or": [T + "valueOr_eq", T + "expValueOr_eq"], "and_then": [T + "andThen_eq", T + "expAndThen_eq"],
+    "or_else": [T + "orElse_eq", T + "expOrElse_eq"],
     "reset": [T + "optional_refines"], "null": [T + "optional_refines"], "val": [T + "optional_refines"],
     "ctor_val": [T + "expected_refines"], "ctor_err": [T + "expected_refines"], "ctor_def": [T + "expected_refines"],
 }
 SEARCH_CAP = 300000
 
-VAR_CFGS = ["if", "fi", "it", "ti", "tif", "ift", "tm", "iftm", "fm"]
-OPT_CFGS = ["i", "f", "t", "m"]
-EXP_CFGS = ["it", "ti", "if", "tm"]
+VAR_CFGS = ["if", "fi", "it", "ti", "tif", "ift", "tm", "iftm", "fm", "ic", "id", "ia", "ib", "qx", "cb"]
+OPT_CFGS = ["i", "f", "t", "m", "c", "d", "a", "b", "x"]
+EXP_CFGS = ["it", "ti", "if", "tm", "ic", "qx", "db"]
+CAT_CFGS = ["it", "qx", "id", "tif"]          # variant configurations with the value-category observations compiled in
 ARGS = ["i", "s", "l", "f", "t", "m"]
-VALS = {"i": [1, 2], "f": [2, 1000], "t": [1, 2], "m": [1, 2]}
+VALS = {"i": [1, 2], "f": [2, 1000], "t": [1, 2], "m": [1, 2], "c": [1, 2], "d": [1, 2], "a": [1, 2], "b": [1, 2], "q": [1, 2],
+        "x": [1, 2]}
 
 
 def var_states(alts):
@@ -136,8 +209,17 @@ def gen_var_exhaustive(add, thorough):
             for t in itertools.product(range(n), repeat=3):
                 setup = [new("var", alts)] + ["emplace s=%d i=%d v=%d" % (k, i, VALS[alts[i]][k % 2]) for k, i in enumerate(t)]
                 add(setup + ["visit s=[0,1,2]", "visit s=[2,0,1] idx=1", "visit s=[1,1,0]"], "var-visit3/" + alts)
+    # value categories: every object category for one variant, every pair of categories for two, by-value visitor
+    for alts in CAT_CFGS:
+        for (i0, v0), (i1, v1) in itertools.product([(i, VALS[a][0]) for i, a in enumerate(alts)], repeat=2):
+            setup = [new("var", alts), "emplace s=0 i=%d v=%d" % (i0, v0), "emplace s=1 i=%d v=%d" % (i1, v1)]
+            add(setup + ["vcat s=[0] q=[%d] vis=cat" % q for q in range(4)]
+                + ["vcat s=[0,1] q=[%d,%d] vis=cat" % (q, r) for q in range(4) for r in range(4)], "var-cat/" + alts)
+            for q in range(4):
+                add(setup + ["vcat s=[0] q=[%d] vis=take" % q, "vcat s=[1,0] q=[%d,%d] vis=take" % (q, 3 - q), "visit s=[0,1]"], "var-cat/" + alts)
+                add(setup + ["vcat s=[0,1] q=[2,%d] vis=take" % q, "vcat s=[0,1] q=[%d,2] vis=take" % q], "var-cat/" + alts)
     # all histories of a fixed depth over a small alphabet, two objects
-    for alts in (["it", "if"] if not thorough else ["it", "if", "tm"]):
+    for alts in (["it", "if", "ic", "qx"] if not thorough else ["it", "if", "tm", "ic", "id", "ia", "ib", "qx", "cb"]):
         alpha = ["emplace s=%d i=%d v=%d" % (k, i, 1 + k) for k in (0, 1) for i in (0, 1)]
         alpha += ["assign s=%d from=%d mv=%d" % (k, j, mv) for k in (0, 1) for j in (0, 1) for mv in (0, 1)]
         alpha += ["ctor s=%d from=%d mv=%d" % (k, j, mv) for k in (0, 1) for j in (0, 1) for mv in (0, 1)]
@@ -167,7 +249,9 @@ def gen_opt_exhaustive(add, thorough):
             for op in ["assign s=0 from=0 mv=0", "assign s=0 from=0 mv=1", "ctor s=0 from=0 mv=1", "swap s=0 with=0",
                        "swap s=0 with=0 via=member", "reset s=0", "null s=0 how=assign", "null s=0 how=ctor", "reln s=0", "has s=0",
                        "value_or s=0 v=7", "value_or s=0 v=7 mv=1", "and_then s=0 f=inc", "and_then s=0 f=none",
-                       "or_else s=0 v=5", "or_else s=0", "or_else s=0 v=5 mv=1", "emplace s=0 v=2"]:
+                       "or_else s=0 v=5", "or_else s=0", "or_else s=0 v=5 mv=1", "emplace s=0 v=2",
+                       "ocat s=0 q=0", "ocat s=0 q=1", "ocat s=0 q=2", "ocat s=0 q=3", "ocat s=0 q=0 take=1", "ocat s=0 q=1 take=1",
+                       "ocat s=0 q=2 take=1", "ocat s=0 q=3 take=1"]:
                 add(setup + [op, "has s=0", "reln s=0"], "opt-one/" + t)
             for own in VALS[t] + [3]:
                 add(setup + ["relv s=0 a=own v=%d" % own], "opt-relv/" + t)
@@ -215,7 +299,8 @@ def gen_exp_exhaustive(add, thorough):
             setup = [new("exp", alts), setx(0, s0)]
             for op in ["assign s=0 from=0 mv=0", "assign s=0 from=0 mv=1", "swap s=0 with=0", "ctor s=0 from=0 mv=1", "ctor_def s=0",
                        "emplace s=0 v=2", "has s=0", "value_or s=0 v=7", "value_or s=0 v=7 mv=1", "and_then s=0 f=inc",
-                       "and_then s=0 f=fail v=3", "or_else s=0 f=recover v=4", "or_else s=0 f=same"]:
+                       "and_then s=0 f=fail v=3", "or_else s=0 f=recover v=4", "or_else s=0 f=same",
+                       "ecat s=0 q=0", "ecat s=0 q=1", "ecat s=0 q=2", "ecat s=0 q=3"]:
                 add(setup + [op, "has s=0"], "exp-one/" + alts)
             add(setup + ["assign_unex s=0 v=1"], "exp-unex/" + alts)
 
@@ -244,9 +329,12 @@ def rand_var(rnd, alts, length):
             lines.append("rel s=%d with=%d" % (k, j))
         elif r < 0.90:
             lines.append(rnd.choice(["get_if", "holds"]) + " s=%d i=%d" % (k, rnd.randrange(na)))
-        else:
+        elif r < 0.96 or alts not in CAT_CFGS:
             cnt = rnd.choice([1, 2, 2, 3]) if na <= 3 else rnd.choice([1, 2])
             lines.append("visit s=%s%s" % (fmt_list([rnd.randrange(n) for _ in range(cnt)]), rnd.choice(["", " idx=1"])))
+        else:
+            ks = rnd.sample(range(n), rnd.choice([1, 2]))
+            lines.append("vcat s=%s q=%s vis=%s" % (fmt_list(ks), fmt_list([rnd.randrange(4) for _ in ks]), rnd.choice(["cat", "take"])))
     return lines
 
 
@@ -279,7 +367,8 @@ def rand_opt(rnd, t, length):
             lines.append(rnd.choice(["reln s=%d" % k, "relv s=%d a=own v=%d" % (k, v), "relv s=%d a=i v=%d" % (k, rnd.choice([1, 2, 3]))]))
         else:
             lines.append(rnd.choice(["has s=%d" % k, "value_or s=%d v=7" % k, "value_or s=%d v=7 mv=1" % k, "and_then s=%d f=inc" % k,
-                                     "and_then s=%d f=none" % k, "or_else s=%d v=5" % k, "or_else s=%d" % k, "or_else s=%d v=4 mv=1" % k]))
+                                     "and_then s=%d f=none" % k, "or_else s=%d v=5" % k, "or_else s=%d" % k, "or_else s=%d v=4 mv=1" % k,
+                                     "ocat s=%d q=%d" % (k, rnd.randrange(4)), "ocat s=%d q=%d take=1" % (k, rnd.randrange(4))]))
     return lines
 
 
@@ -299,7 +388,8 @@ def rand_exp(rnd, alts, length):
             lines.append("swap s=%d with=%d" % (k, j))
         else:
             lines.append(rnd.choice(["has s=%d" % k, "value_or s=%d v=7" % k, "value_or s=%d v=7 mv=1" % k, "and_then s=%d f=inc" % k,
-                                     "and_then s=%d f=fail v=3" % k, "or_else s=%d f=recover v=4" % k, "or_else s=%d f=same" % k]))
+                                     "and_then s=%d f=fail v=3" % k, "or_else s=%d f=recover v=4" % k, "or_else s=%d f=same" % k,
+                                     "ecat s=%d q=%d" % (k, rnd.randrange(4))]))
     return lines
 
 
@@ -375,6 +465,16 @@ def classify(case, k, row):
         return "F-C07-expected-no-unexpected-assign"
     if op == "conv" and case.lines[0].startswith("new kind=oref") and row.impl.startswith("nc"):
         return "F-C07-optional-ref-conversion"
+    if op == "assign" and " mv=0" in case.lines[k] and row.impl == row.model:
+        # copy assignment to a different alternative whose type asks for copy-then-move ([variant.assign]/2.4, reinit-expected):
+        # exactly one slot differs, it holds an x, implementation mark 1 (copy constructed), reference mark 2
+        head = [ln for ln in case.lines[:k + 1] if ln.startswith("new ")][-1]
+        m = re.match(r"new kind=(var|exp) alts=(\w+)", head)
+        if m and "x" in m.group(2):
+            a, b = row.impl.split(" "), row.spec.split(" ")
+            diff = [(x, y) for x, y in zip(a, b) if x != y] if len(a) == len(b) else None
+            if diff and len(diff) == 1 and re.fullmatch(r"(\d:|[ve]:)x-?\d+\.1", diff[0][0]) and diff[0][1] == diff[0][0][:-1] + "2":
+                return "F-C07-copy-assign-no-copy-then-move"
     return None
 
 
@@ -384,8 +484,9 @@ def group_of(case):
 
 CLAIMED = True
 TECHNIQUE = ("Lean 4 proof: hand model of etl::variant (index + active value, every union access checked, visit_with_index modelled "
-             "with its next_seq mixed-radix recursion, assign/construct/destroy/comparison through that dispatch, generic three-move "
-             "swap), of optional and expected as wrappers of it, refined to a "
+             "with its next_seq mixed-radix recursion, assign/construct/destroy/comparison through that dispatch, the four special "
+             "members selected by the trait bits of the requires-clauses and applied to the elements as abstract copy/move "
+             "constructor and assignment functions, generic three-move swap), of optional and expected as wrappers of it, refined to a "
              "declarative sum-type spec for all histories; model tied to the code by exhaustive small-scope + random "
              "correspondence runs against std::variant/optional/expected")
 LEVEL_TEXT = ("etl::variant is modelled as (index, value of the active union member) with every union access behind the I == index() "
@@ -396,15 +497,27 @@ LEVEL_TEXT = ("etl::variant is modelled as (index, value of the active union mem
               "member is read), and — with no bound on history length or number of objects — that every history of emplace, in-place "
               "construction, copy/move assignment and construction (trivial and non-trivial special-member paths, self forms), and the "
               "generic three-move swap never fails and leaves every object with the index and value the sum-type spec prescribes, "
-              "moved-from sources included. optional (engaged = index 1, reset = emplace<0>(nullopt)) and expected (value = index 0) are "
+              "moved-from sources included. The element's copy constructor, move constructor, copy assignment and move assignment are "
+              "four arbitrary functions on values (no laws), so the theorems also say WHICH special member produces the stored value: "
+              "[variant.assign] / [variant.ctor] / [optional.assign] / [expected.object.assign] - same alternative: the element's "
+              "assignment; different alternative: destroy + construction from the source - with the variant's defaulted (bitwise) "
+              "members taken exactly when the trait bits of the requires-clauses say so. The spec carries the copy-then-move that "
+              "[variant.assign]/2.4 and reinit-expected prescribe for an alternative with a throwing copy and a non-throwing move "
+              "constructor; etl constructs in place there (known finding, counterexample theorem; the history theorems exclude that "
+              "class by hypothesis). optional (engaged = index 1, reset = emplace<0>(nullopt)) and expected (value = index 0) are "
               "proved to be simulations of Option / value-or-error under that history theorem. All six relational operators of "
               "variant, of optional/optional (mixed T/U), optional/nullopt and optional/value in both operand orders are proved equal "
               "to the std definitions for arbitrary element operator tables (NaN-like ones included); value_or, and_then and get_if are "
-              "proved equal to their declarative specs. Which alternative the converting constructor selects (best non-narrowing "
-              "candidate, none when tied) is modelled and compared with both libraries on every run but not proved. The model is tied to the current source on every run by executing model and implementation "
-              "on the same histories (every from/to state pair x every assignment, construction, swap and comparison form over 9 "
-              "variant, 4 optional, 4 expected configurations with trivially copyable, non-trivial and move-only alternatives and "
-              "optional<int&>; all depth-2/3 histories; random long histories) under ASan/UBSan; the spec is validated against "
+              "proved equal to their declarative specs, and so are optional::or_else and expected's value_or, and_then, or_else and "
+              "error() (with their preconditions shown to hold on the paths that use them). The alternative the converting constructor / assignment selects (a left-to-right "
+              "scan keeping the best non-narrowing candidate and a tie flag) is proved equal to the declarative selection (the unique "
+              "viable alternative strictly better than all others) for any candidate table. Value categories cannot be carried by a "
+              "value-level model: which reference kind visit, unchecked_get, operator[], operator*, error(), and_then and or_else hand "
+              "on for lvalue, const lvalue, rvalue and const rvalue objects, and what a by-value visitor leaves behind in the source, "
+              "is observed at compile time (decltype matrix) and at run time and compared with std line by line. The model is tied to the current source on every run by executing model and implementation "
+              "on the same histories (every from/to state pair x every assignment, construction, swap and comparison form over 15 "
+              "variant, 9 optional, 7 expected configurations with trivially copyable, non-trivial, move-only alternatives, six "
+              "kinds whose four special members are distinguishable in the stored value, and optional<int&>; all depth-2/3 histories; random long histories) under ASan/UBSan; the spec is validated against "
               "libstdc++ on the same histories.")
 LEVEL_NOTE = ("Trusted: Lean kernel + propext/Classical.choice/Quot.sound; the hand model's fidelity outside the explored inputs; "
               "g++-12/ASan; libstdc++ 12 as oracle for spec validation. Overload resolution and template constraints are the compiler's: "
@@ -414,17 +527,16 @@ LEVEL_NOTE = ("Trusted: Lean kernel + propext/Classical.choice/Quot.sound; the h
               "in libstdc++ 12). Two members the property names do not exist in the library (expected = unexpected<G>, optional<T&> "
               "from optional<U>) and are recorded as known findings, replayed on every run.")
 CORRESPONDENCE_ONLY = [
-    "converting constructor / assignment selection: Model.select (left-to-right scan keeping the best non-narrowing candidate and a "
-    "tie flag) and Spec.select (the unique candidate strictly better than all others) are both executed on every argument type x "
-    "configuration and compared with etl and std; the theorem select_eq (scan = declarative) of DESIGN §4 is not proved",
     "optional<T&> (bind/rebind, reset, copy, swap of the pointer, write-through, comparisons): the model is a nullable cell index; "
     "compared with a pointer reference on every run, no theorem beyond the optional relational theorems it reuses",
-    "or_else (optional, expected), expected::and_then / value_or / has_value / error(): modelled in the driver line by line "
-    "(`has ? *this : f()`), compared on every run, no separate theorem",
-    "rvalue forms (value_or &&, or_else &&): the moved-from marking of the source is modelled in the driver, compared on every run",
-    "which assignment path a converting assignment takes (emplace<T_j> for class alternatives, temporary + move assignment for "
-    "scalar ones; optional::operator=(U&&) versus optional(U) + move assignment): observed; both paths are modelled and both end in "
-    "the state the history theorem gives for emplace",
+    "rvalue forms (value_or &&, or_else &&) and the copy / move construction of the returned object: Model.orElse / expValueOr / "
+    "expAndThen / expOrElse give the element that is handed on (theorems orElse_eq, expValueOr_eq, expAndThen_eq, expOrElse_eq, "
+    "expError_eq); marking the source as moved-from and copy / move constructing the result with `el` is done in the driver, "
+    "compared on every run",
+    "which assignment path a converting assignment takes (class alternatives: assignment to the held T_j / emplace<T_j> otherwise; "
+    "scalar ones: temporary variant + move assignment; optional::operator=(U&&) and operator=(optional<U>) likewise): modelled in the "
+    "driver with the element operations (`el.ma` for the assign-through), compared on every run with element kinds that tell an "
+    "assignment from a construction; the theorems cover the variant operations these paths are made of",
     "conversion of the argument value (short -> int, float -> Trk(int) truncation, int -> float) and the conversion-rank table of the "
     "element types: test data of the driver, validated by R1/R2",
     "emplace<T> / get_if<T> / holds_alternative<T> by type: index_of<T> is compile-time; the model uses the index",
@@ -433,6 +545,14 @@ CORRESPONDENCE_ONLY = [
     "covered by the history theorem only through those variant operations",
 ]
 UNPROVED_OBSERVED = [
+    "value categories (observed, not proved - a value-level Lean model cannot carry them): the reference kind (T&, T const&, T&&, "
+    "T const&&) that visit hands to the visitor for every category of one variant and every pair of categories of two, of "
+    "unchecked_get / std::get and operator[], of optional::operator* and the argument of optional::and_then, of expected::operator*, "
+    "error() and the argument of expected::and_then / or_else, for lvalue, const lvalue, rvalue and const rvalue objects: a "
+    "compile-time decltype matrix plus the run-time overload a forwarding visitor receives, etl against std line by line "
+    "(expected's monadic members against [expected.object.monadic] written out, libstdc++ 12 lacks them); the moved-from state a "
+    "by-value visitor / `T x = *move(o)` leaves in the source is part of the compared state; the driver's side of these lines is the "
+    "forwarding table of the standard (category in = category out), not a theorem. optional has no value() member.",
     "element lifetimes (each alternative constructed once / destroyed once; arguments aliasing the variant in emplace and converting "
     "assignment): property C03; ASan/UBSan observe the explored histories",
 ]
